@@ -2977,3 +2977,56 @@ func ruleNullTypeOnlyInUnions(c *core.Ctx) {
 		})
 	}
 }
+
+// U1: alias resolution before looking at the shape of a type. dsl.ToGeneralizedType wraps a *SimpleType as a scalar
+// with no dimensionality, whatever the named type stands for: code that goes on to read .Dimensionality / .Cases of
+// the result sees "scalar" for `a: Img` with `Img: !array ...`. Every call therefore takes GetUnderlyingType(...) (or a
+// value that already is a *GeneralizedType), with the functions that resolve aliases themselves listed by name.
+var generalizeExceptions = map[string]string{
+	"internal/ndjsoncommon.GetJsonDataType": "resolves aliases itself: its `case *dsl.NamedType` recurses into the aliased type",
+}
+
+func ruleGeneralizeUnderlying(c *core.Ctx) {
+	const rule = "U1"
+	c.Rule(rule, "every dsl.ToGeneralizedType(x) outside pkg/dsl's own definition takes x = GetUnderlyingType(...) or a value that is already a *GeneralizedType: the shape of a type is read after aliases have been resolved", 15)
+	tg, _, _ := c.Func("pkg/dsl", "ToGeneralizedType")
+	gu, _, _ := c.Func("pkg/dsl", "GetUnderlyingType")
+	if tg == nil || gu == nil {
+		c.Undecided(rule, "anchor/ToGeneralizedType,GetUnderlyingType", 0, "anchor functions not found")
+		return
+	}
+	for _, d := range c.AllDecls() {
+		p := c.DeclPkg(d)
+		if p == nil || d.Body == nil || c.IsTestFile(d.Pos()) || !strings.HasPrefix(p.PkgPath, core.Mod) {
+			continue
+		}
+		info := p.TypesInfo
+		n := 0
+		for _, cs := range c.Calls(d) {
+			if cs.Callee == nil || cs.Callee.Origin() != tg || len(cs.Call.Args) != 1 {
+				continue
+			}
+			n++
+			key := fmt.Sprintf("%s/ToGeneralizedType#%d", c.FuncName(d), n)
+			if r, ok := generalizeExceptions[c.FuncName(d)]; ok {
+				c.OK(rule, key, cs.Call.Pos(), "table exception: "+r)
+				continue
+			}
+			arg := ast.Unparen(cs.Call.Args[0])
+			if id, ok := arg.(*ast.Ident); ok {
+				arg = ast.Unparen(singleDefRHS(info, d.Body, id))
+			}
+			good := false
+			if ce, ok := arg.(*ast.CallExpr); ok {
+				if f := core.Callee(info, ce); f != nil && f.Origin() == gu {
+					good = true
+				}
+			}
+			if nt := core.NamedOf(info.TypeOf(arg)); nt != nil && nt.Obj().Name() == "GeneralizedType" {
+				good = true
+			}
+			c.Check(good, rule, key, cs.Call.Pos(), "the argument is an underlying type",
+				"ToGeneralizedType is applied to `"+types.ExprString(cs.Call.Args[0])+"` without GetUnderlyingType: for a value whose type is a named (alias) type the result is a scalar with no dimensionality — a `.Dimensionality.(*dsl.Array)` assertion on it panics, a switch on it takes the wrong branch")
+		}
+	}
+}
